@@ -44,11 +44,42 @@ class SymStr:
         self.codes = z3.Function(name + '_code', z3.IntSort(), z3.IntSort())
 
 
+class SymItems:
+    """An abstract finite sequence of dict items (key_i, value_i), i in [0, n): keys are denoted by their index."""
+
+    def __init__(self, name):
+        self.n = z3.Int(name + '_count')
+        self.name = name
+
+
+class KeyRef:
+    """the key of item i of a SymItems"""
+
+    def __init__(self, items, i):
+        self.items = items
+        self.i = i
+
+
+class SymDict:
+    """dict from integers to item indices, as an SMT array; ABSENT marks a missing key"""
+    ABSENT = -1
+
+    def __init__(self, arr=None):
+        self.arr = arr if arr is not None else z3.K(z3.IntSort(), z3.IntVal(-1))
+
+
 class Record:
     """dict / object with symbolic fields, tracked by key."""
 
     def __init__(self, fields):
         self.fields = dict(fields)
+
+
+class Lookup:
+    """result of dict.get(k): the index of the stored key, or ABSENT"""
+
+    def __init__(self, idx):
+        self.idx = idx
 
 
 class Path:
@@ -123,6 +154,8 @@ def as_int(v):
 
 
 def as_bool(v):
+    if isinstance(v, Lookup):
+        return v.idx != SymDict.ABSENT      # a stored key (a non-empty string) is truthy, None is falsy
     if isinstance(v, bool):
         return z3.BoolVal(v)
     if isinstance(v, int):
@@ -293,6 +326,12 @@ class PyExec:
                 raise PyOutOfReach('tuple unpacking of %r' % (v,))
             for a, b in zip(t.elts, v):
                 self._assign(a, b, env)
+        elif isinstance(t, ast.Subscript) and isinstance(t.value, ast.Name) and isinstance(env.get(t.value.id), SymDict):
+            d = env[t.value.id]
+            keys = self._eval(t.slice, env, [], 'assign', 0)
+            if len(keys) != 1 or not isinstance(v, KeyRef):
+                raise PyOutOfReach('dict store')
+            env[t.value.id] = SymDict(z3.Store(d.arr, as_int(keys[0][1]), v.i))
         elif isinstance(t, ast.Subscript) and isinstance(t.value, ast.Name) and isinstance(env.get(t.value.id), Record):
             key = ast.literal_eval(t.slice)
             r = env[t.value.id]
@@ -314,6 +353,8 @@ class PyExec:
             if len(its) != 1:
                 raise PyOutOfReach('branching loop iterable')
             pc, it = its[0]
+            if isinstance(it, SymItems):
+                return self._for_items(s, it, env, pc, fname, depth, spec, k)
             if not isinstance(it, SymStr) or not isinstance(s.target, ast.Name):
                 raise PyOutOfReach('for over %r' % (it,))
             # assigned names in the body
@@ -371,6 +412,46 @@ class PyExec:
                         out.append((kind, e4, p4, v4))
             if self._feasible(p3, z3.Not(c)):
                 out.append(('fall', env2, p3 + [z3.Not(c)], None))
+        return out
+
+    def _for_items(self, s, it, env, pc, fname, depth, spec, k):
+        mods = sorted({n.id for n in ast.walk(s) if isinstance(n, ast.Name) and isinstance(n.ctx, ast.Store)} |
+                      {n.value.id for n in ast.walk(s) if isinstance(n, ast.Subscript) and isinstance(n.ctx, ast.Store) and isinstance(n.value, ast.Name)})
+
+        def havoc(e):
+            e2 = dict(e)
+            for m in mods:
+                if m in e2 and isinstance(e2[m], SymDict):
+                    self.fresh_n += 1
+                    e2[m] = SymDict(z3.Array('%s!%d' % (m, self.fresh_n), z3.IntSort(), z3.IntSort()))
+                elif m in e2 and (z3.is_expr(e2[m]) or isinstance(e2[m], (int, bool))):
+                    e2[m] = self.fresh(m)
+            return e2
+        for lbl, e in spec.invariant(env, z3.IntVal(0)):
+            self.obligations.append(('%s#inv-init#%d#%s' % (fname, k, lbl), list(pc), e))
+        i = self.fresh('i')
+        env2 = havoc(env)
+        pc2 = list(pc) + [i >= 0, i < it.n] + [e for _, e in spec.invariant(env2, i)]
+        env3 = dict(env2)
+        if isinstance(s.target, ast.Tuple) and len(s.target.elts) == 2:
+            env3[s.target.elts[0].id] = KeyRef(it, i)
+            env3[s.target.elts[1].id] = None
+        elif isinstance(s.target, ast.Name):
+            env3[s.target.id] = KeyRef(it, i)
+        else:
+            raise PyOutOfReach('loop target')
+        out = []
+        for (kind, e4, p4, v4) in self._exec_block(s.body, env3, pc2, fname, depth):
+            if kind in ('fall', 'continue'):
+                for lbl, e in spec.invariant(e4, i + 1):
+                    self.obligations.append(('%s#inv-keep#%d#%s' % (fname, k, lbl), list(p4), e))
+            elif kind == 'raise':
+                out.append((kind, e4, p4, v4))
+            else:
+                raise PyOutOfReach('%s inside a for loop body' % kind)
+        env5 = havoc(env)
+        pc5 = list(pc) + [it.n >= 0] + [e for _, e in spec.invariant(env5, it.n)]
+        out.append(('fall', env5, pc5, None))
         return out
 
     # ---- expressions: return list of (pc, value) ------------------------------------------------
@@ -485,6 +566,8 @@ class PyExec:
                     else:
                         raise PyOutOfReach('subscript of %r' % (base,))
             return out
+        if isinstance(e, ast.Dict) and not e.keys:
+            return [(pc, SymDict())]
         if isinstance(e, ast.JoinedStr):
             res = [(pc, [])]
             for part in e.values:
@@ -588,6 +671,12 @@ class PyExec:
             res = nxt
         name = ast.unparse(e.func)
         out = []
+        if isinstance(e.func, ast.Attribute) and isinstance(e.func.value, ast.Name):
+            base = env.get(e.func.value.id)
+            if isinstance(base, SymItems) and e.func.attr == 'items':
+                return [(pc, base)]
+            if isinstance(base, SymDict) and e.func.attr == 'get':
+                return [(p, Lookup(z3.Select(base.arr, as_int(args[0])))) for (p, args) in res]
         for (p, args) in res:
             if name in self.models:
                 r = self.models[name](self, args, p)
